@@ -592,6 +592,41 @@ def processNode (self changes : Interp R) : Node R → PRes R
         | .panic s => .panic s
     | .other => .err .disallowedNodeInIf
 
+/-! glue for the functions of `int/mod.rs` that tools/rs2lean2.py translates: the statements they hand on to
+(`process_apply_gate`, `process_gate`, `process_if`, as long as those are mirrored by hand) with the Rust
+parameter lists, and `Result` as `Except` (a panic outcome of the model, which Props/C12 shows unreachable, is
+carried along as an error value that no Rust error maps to) -/
+
+def _root_.Qvnt.Res.toE {α : Type} : Res α → Except IntError α
+  | .ok a => .ok a
+  | .err e => .error e
+  | .panic s => .error (.unknownGate ("<panic> " ++ s))
+
+/-- `gates::process` (mirrored by hand above, table and arms tied by tools/extract.py) as a `Result` -/
+def _root_.Qvnt.Gates.processE (name : String) (regs : List Nat) (args : List R) : Except IntError (MultiOp R) :=
+  (Gates.process name regs args).toE
+
+/-- `Macro::process(&self, name, regs, args, &macros)` (mirrored by hand above, text tied by tools/canon.py) as a
+`Result`: the expansion starts with the call stack `[name]`; the model's fuel is the number of definitions + 2 -/
+def _root_.Qvnt.Macro.processE (m : Macro R) (name : String) (regs : List Nat) (args : List R)
+    (macros : List (String × Macro R)) : Except IntError (MultiOp R) :=
+  (Macro.process macros (macros.length + 2) m name regs args [name]).toE
+
+/-- `parse::eval_extended(arg, None).map_err(|e| Error::UnevaluatedArgument(arg, e))` -/
+def evalArg (arg : PExpr R) : Except IntError R :=
+  match evalExtended arg [] with
+  | .ok v => .ok v
+  | .error e => .error (.unevaluatedArgument arg.text e)
+
+def extApplyGate (self changes : Interp R) (name : String) (regs : List Arg) (args : List (PExpr R)) :
+    Except IntError (Interp R) := (processApply self changes ⟨name, regs, args⟩).toE
+
+def extGate (self changes : Interp R) (name : String) (regs args : List String) (nodes : List (Inner R)) :
+    Except IntError (Interp R) := (processNode self changes (.gate name regs args nodes)).toE
+
+def extIf (self changes : Interp R) (lhs : String) (rhs : Nat) (ifBlock : Inner R) :
+    Except IntError (Interp R) := (processNode self changes (.ifn lhs rhs ifBlock)).toE
+
 /-- `process_nodes`: stops at the first error -/
 def processNodes (self changes : Interp R) : List (Node R) → PRes R
   | [] => .ok changes
